@@ -2,7 +2,7 @@
 import json, os, shutil, subprocess, time
 import build, common
 
-SCEN = ["tree-bst", "tree-rb", "tree-avl", "hashtable-list", "strings-errors", "inifile", "cryptohash", "ipc", "sockets", "dir", "libraryloader", "threads-tls", "locks"]
+SCEN = ["tree-bst", "tree-rb", "tree-avl", "hashtable-list", "strings-errors", "inifile", "cryptohash", "ipc", "sockets", "dir", "libraryloader", "threads-tls", "locks", "timeprofiler-strtok-process-file"]
 INI = "[numbers]\ni = 12\nd = 1.5\nb = true\n\n# comment\n[strings]\ns = \"text ; with # marks\"\nt = plain\n\n[lists]\nl = {a b c}\n"
 
 
